@@ -500,6 +500,94 @@ func (s *Sim) preUnlock(p unsafe.Pointer) bool {
 }
 
 // ---------------------------------------------------------------------------
+// sync.RWMutex
+
+// RWLock replaces rw.Lock().
+func RWLock(rw *sync.RWMutex) {
+	s := cur
+	if s == nil {
+		rw.Lock()
+		return
+	}
+	if s.preRW(unsafe.Pointer(rw), wWLock) {
+		rw.Lock()
+	}
+}
+
+// RWUnlock replaces rw.Unlock().
+func RWUnlock(rw *sync.RWMutex) {
+	s := cur
+	if s == nil {
+		rw.Unlock()
+		return
+	}
+	if s.postRW(unsafe.Pointer(rw), true) {
+		rw.Unlock()
+	}
+}
+
+// RLock replaces rw.RLock().
+func RLock(rw *sync.RWMutex) {
+	s := cur
+	if s == nil {
+		rw.RLock()
+		return
+	}
+	if s.preRW(unsafe.Pointer(rw), wRLock) {
+		rw.RLock()
+	}
+}
+
+// RUnlock replaces rw.RUnlock().
+func RUnlock(rw *sync.RWMutex) {
+	s := cur
+	if s == nil {
+		rw.RUnlock()
+		return
+	}
+	if s.postRW(unsafe.Pointer(rw), false) {
+		rw.RUnlock()
+	}
+}
+
+//go:norace
+func (s *Sim) preRW(p unsafe.Pointer, kind waitKind) bool {
+	t := &s.tasks[s.running]
+	if t.killed {
+		return false
+	}
+	oi := s.obj(p, oRWMutex)
+	t.wait, t.obj = kind, oi
+	s.reschedule()
+	t.wait = wNone
+	o := &s.objs[oi]
+	if kind == wWLock {
+		o.owner = t.id
+	} else {
+		o.n++
+	}
+	return true
+}
+
+//go:norace
+func (s *Sim) postRW(p unsafe.Pointer, write bool) bool {
+	t := &s.tasks[s.running]
+	o := &s.objs[s.obj(p, oRWMutex)]
+	if write {
+		if t.killed && o.owner != t.id {
+			return false
+		}
+		o.owner = -1
+		return true
+	}
+	if o.n <= 0 {
+		return !t.killed // let the real RUnlock report the misuse
+	}
+	o.n--
+	return true
+}
+
+// ---------------------------------------------------------------------------
 // sync.Once
 
 // OnceDo replaces once.Do(f).
